@@ -139,6 +139,16 @@ Definition lock_utxos_ok (tip : option Z) (owner : Z) (ids : list Z) (udb : list
   forallb (fun i => existsb (fun u => u_id u =? i) udb
                     && forallb (fun u => negb (u_id u =? i) || u_lockable tip owner u) udb) ids.
 
+(** unlock_spent_notes on transparent_received_outputs *)
+Definition u_clear_lock (u : utxo_row) : utxo_row :=
+  U (u_id u) (u_acct u) (u_addr u) (u_scope u) (u_value u) (u_mined u) (u_expiry u) (u_txindex u) (u_maxobs u)
+    (u_no_wallet_inputs u) (u_imp_pubkey u) (u_imp_script u) None None (u_spenders u) (u_rank u).
+
+Definition u_spent_by (ids : list Z) (u : utxo_row) : bool := existsb (Z.eqb (u_id u)) ids.
+
+Definition unlock_spent_utxos (ids : list Z) (udb : list utxo_row) : list utxo_row :=
+  map (fun u => if u_spent_by ids u then u_clear_lock u else u) udb.
+
 Section Shield.
   Variable change : list utxo_row -> tchange_result.
 
